@@ -919,6 +919,50 @@ def translate_writers():
     pre, body, tail = stmts[:start[0]], stmts[start[0]:cut[0]], stmts[cut[0]:]
     if not any(_is_stmt(s, 'lammps_unit = style.unit(lammps_units)') for s in pre):
         _fail('atom_dump.dump: lammps_unit = style.unit(lammps_units) not found')
+    # defaults in front of the text: prop_name (atom_id first) and shape
+    dflt = [s for s in pre if isinstance(s, ast.If) and _is(s.test, 'prop_info is None')]
+    if len(dflt) != 1 or len(dflt[0].body) != 2 or dflt[0].orelse:
+        _fail('atom_dump.dump: the defaults of prop_name / shape have changed')
+    dn, dsh = dflt[0].body
+    want_dn = "if prop_name is None:\n    atoms_props = system.atoms_prop()\n    try:\n        atoms_props.pop(atoms_props.index({0}))\n" \
+              "    except:\n        pass\n    prop_name = [{1}] + atoms_props"
+    ok = isinstance(dn, ast.If) and len(dn.body) == 3 and isinstance(dn.body[2], ast.Assign) \
+        and isinstance(dn.body[2].value, ast.BinOp) and isinstance(dn.body[2].value.left, ast.List) \
+        and len(dn.body[2].value.left.elts) == 1 and isinstance(dn.body[2].value.left.elts[0], ast.Constant)
+    if ok:
+        first = dn.body[2].value.left.elts[0].value
+        tr = dn.body[1]
+        ok = isinstance(tr, ast.Try) and len(tr.body) == 1 and isinstance(tr.body[0], ast.Expr) \
+            and isinstance(tr.body[0].value, ast.Call) and tr.body[0].value.args \
+            and isinstance(tr.body[0].value.args[0], ast.Call) and tr.body[0].value.args[0].args \
+            and isinstance(tr.body[0].value.args[0].args[0], ast.Constant)
+    if ok:
+        dropped = tr.body[0].value.args[0].args[0].value
+        ok = _u(dn) == _u(ast.parse(want_dn.format(repr(dropped), repr(first))).body[0])
+    if not ok:
+        _fail('atom_dump.dump: the default prop_name has changed', dn)
+    ok = isinstance(dsh, ast.If) and _is(dsh.test, 'shape is None and table_name is None') and len(dsh.body) == 2 \
+        and _is_stmt(dsh.body[0], 'shape = []') and isinstance(dsh.body[1], ast.For) and _is(dsh.body[1].target, 'name') \
+        and _is(dsh.body[1].iter, 'prop_name') and len(dsh.body[1].body) == 1 and isinstance(dsh.body[1].body[0], ast.If)
+    if ok:
+        i1 = dsh.body[1].body[0]
+        ok = isinstance(i1.test, ast.Compare) and _is(i1.test.left, 'name') and isinstance(i1.test.ops[0], ast.Eq) \
+            and isinstance(i1.test.comparators[0], ast.Constant) and _is_stmt(i1.body[0], 'shape.append(())') \
+            and len(i1.orelse) == 1 and isinstance(i1.orelse[0], ast.If)
+    if ok:
+        i2 = i1.orelse[0]
+        ok = isinstance(i2.test, ast.Compare) and _is(i2.test.left, 'name') and isinstance(i2.test.ops[0], ast.In) \
+            and isinstance(i2.test.comparators[0], (ast.List, ast.Tuple)) \
+            and all(isinstance(e, ast.Constant) for e in i2.test.comparators[0].elts) \
+            and _is_stmt(i2.body[0], 'shape.append((3,))') and len(i2.orelse) == 1 \
+            and _is_stmt(i2.orelse[0], 'shape.append(system.atoms.view[name].shape[1:])')
+    if not ok:
+        _fail('atom_dump.dump: the default shape has changed', dsh)
+    L += ['/-- the defaults of `atom_dump.dump`: prop_name (`atoms_props` = system.atoms_prop()) and the shape of one name. -/',
+          f'def genDefaultDumpNames (atomsProps : List String) : List String := [{_lean_q(first)}] ++ atomsProps.erase {_lean_q(dropped)}',
+          'def genDefaultDumpShape (name : String) (stored : List Nat) : List Nat :=',
+          f'  if name = {_lean_q(i1.test.comparators[0].value)} then [] else if [' +
+          ', '.join(_lean_q(e.value) for e in i2.test.comparators[0].elts) + '].contains name then [3] else stored', '']
     # the header line of the ATOMS item
     hk = [k for k, s in enumerate(body) if _is_stmt(s, "header = 'ITEM: ATOMS'")]
     want = ["for prop in prop_info:\n    header += ' ' + ' '.join(prop['table_name'])", "header += '\\n'", 'content += header']
@@ -1169,8 +1213,15 @@ THEOREMS = [
     'C07.gen_tableUnits_eq_model', 'C07.gen_pins_eq_model',
     # whole calls: where the text goes; the generated documents under the whole-file theorems; refusals of poscar.dump
     'C07.deliver_spec', 'C07.gen_files_are_model_files', 'C07.poscar_refusal_iff', 'C07.data_call_end_to_end',
+    'C07.dump_call_end_to_end', 'C07.table_call_end_to_end', 'C07.poscar_call_end_to_end',
+    # the default columns of a dump file
+    'C07.gen_defaultDump_eq_model', 'C07.default_dump_columns',
 ]
 PARTIAL = {
+    'pandas plumbing is pinned, not translated':
+        'table.dump, atom_dump.table_dump, df_to_table (DataFrame column assembly, select + rename, to_csv) and the call of '
+        'process_prop_info are held by normalised-AST hashes (gen_pins_eq_model) plus extracted constants (first id, '
+        'conversion / scaled tests); their behaviour is tied to tableRows / propCells by the correspondence runs only',
     'inside the written bounds / lo < hi AFTER rounding':
         'data_wellformed proves "every atom inside the bounds" and "lo < hi" for the exact numbers the file prints (each '
         'printed number is within half a unit of its last place of them: fmtFixed_error / fmtExp_error) and lo < hi of the '
@@ -1229,7 +1280,11 @@ RULE = ('systems of 1-16 atoms (1-13 atom types) in orthogonal/triclinic cells (
         'upos / supos (64 column orders) and, search only, each subset holding pos again with unit "scaled" on the pos '
         'entry itself (x y z or xs ys zs names), in cells away from the unit cube at the origin; thorough tier only: one '
         'system of 2^20 + 1 / 5 / 17 atoms through every writer, tables with and without the header line (row-count '
-        'thresholds above ~1.4e5 atoms are out of reach of the quick tier)')
+        'thresholds above ~1.4e5 atoms are out of reach of the quick tier). Sixth round: every writer x {no target, file '
+        'name, open stream} x second return value asked for or not (which values come back, what arrives in the target, '
+        'whether the snippet names the file; correspondence against the model op route, search against the rule written '
+        'down independently); dump files without prop_name of systems whose own atom ids stand first / in the middle / '
+        'last among the properties (default columns and shapes against the model op dumpdefaults)')
 ASSUMPTIONS = [
     "CPython '%.Nf' / '%.Ne' of a double is the correctly rounded (half-even on ties) decimal of its exact value "
     '(checked against the model on every run, incl. ties and subnormals); a width and the flags + - blank 0 # and %E '
@@ -1254,7 +1309,9 @@ ASSUMPTIONS = [
     'a PotentialLAMMPS record built offline by potentials.build_lammps_potential carries units / atom_style / symbols like '
     'a downloaded one',
 ]
-TRUSTED = ['numpy/pandas in the real writers', 'the Python oracle parsers in harness/props/c07.py (cross-checked against the '
+TRUSTED = ['numpy/pandas in the real writers', 'the writer translator (symbolic evaluation of the string-building '
+           'statements of the four dump.py files; which Python variable stands for which model argument: atom_style -> '
+           'words of the style, units / f / coordstyle -> one word, header -> word list)', 'the Python oracle parsers in harness/props/c07.py (cross-checked against the '
            'Lean parsers on every real output)']
 MANIFEST = {
     'text': 'Lean model of the four writers (exact %.Nf/%.Ne printing of rationals, wrap with image flags, header/box/'
@@ -1271,13 +1328,19 @@ MANIFEST = {
             'length) names a property once and the hybrid composition equals the regenerated real hybrid lists; scaled dump '
             'columns unscale to the positions; derived units (angular momentum, angular velocity, volume) are composed of '
             'the style\'s own entries; the TIMESTEP item is the whole number the system holds whatever numeric type carries '
-            'it. Tie: text equality atomman-vs-model '
+            'it. Sixth round: the writer code itself is regenerated with ast into Generated/WriterSource.lean (line '
+            'layouts and their order, box lines and tilt test, bounding-box formulas, pp/fm flags, argument defaults and '
+            'signatures, POSCAR lines / refusal / mode letters, default dump columns, where the text goes) and proved '
+            'equal to the model (19 gen_..._eq_model obligations, 4 normalised-AST pins for the pandas plumbing); whole '
+            'calls end to end (data_call_end_to_end, dump_/table_/poscar_call_end_to_end: option handling, output '
+            'route, independent parser, snippet), deliver_spec, poscar_refusal_iff, default_dump_columns. '
+            'Tie: text equality atomman-vs-model '
             'on every case (exact on the dyadic grid), Lean parsers applied to the real output and compared with the system; '
             'failing-input search with an independent Python parser.',
     'note': 'Trusted: Lean kernel + propext/Classical.choice/Quot.sound; the table extractor (exec of the pure prop_info '
             'functions with a symbolic style.unit) and the correspondence harness; CPython/pandas number printing; the '
             'hand-transcribed LAMMPS manual tables.',
-    'technique': 'Lean 4 theorems over a hand-written model + translator-generated tables + differential correspondence',
+    'technique': 'Lean 4 theorems over a hand-written model + translator-generated tables and writer documents (proved equal to the model) + differential correspondence',
 }
 
 # per-atom properties each atom_style needs besides id/type/pos: (prop, is_int, ncomp)
@@ -4165,6 +4228,7 @@ def correspond(ctx):
     for i in range(0, len(cases), 200):
         run_cases(ctx, cases[i:i + 200])
     route_cases(ctx, ctx.disagree)
+    defaults_cases(ctx, ctx.disagree)
     # bounding-box map and its inverse on their own
     lines, hs = [], []
     for _ in range(ctx.n(200, 4000)):
@@ -4227,6 +4291,43 @@ def route_observe(d, kind, target, want):
     if arrived is not None and arrived != ref and arrived != '':
         return f'the target holds {arrived[:60]!r}..., not the text the call returns without a target'
     return (has_text, bool(others), arrived == ref, len(vals), names)
+
+
+def defaults_cases(ctx, report):
+    """atom_dump.dump without prop_name / shape: which properties, in which order, with which shapes (model:
+    `defaultDumpProps`, proved equal to the defaults regenerated from the source).  Systems with own atom ids standing
+    first / in the middle / last among the properties, vectors and tensors; the real answer is the filled-in prop_info
+    (`return_prop_info=True`) and the ITEM: ATOMS line."""
+    rng = random.Random(ctx.seed * 7919 + 13)
+    pool = [('velocity', 0, 3), ('charge', 0, 1), ('stress', 0, (3, 3)), ('m_id', 1, 1), ('w', 0, (2, 2))]
+    for k in range(6):
+        extra = rng.sample(pool, rng.randint(0, 3))
+        if k % 3 != 2:
+            extra.insert(rng.randint(0, len(extra)), ('atom_id', 1, 1))
+        d = gen_desc(rng, 'grid', props=extra, nmax=4)
+        if 'atom_id' in d['props']:
+            d['props']['atom_id'] = (True, (), [[7 + 3 * i] for i in range(len(d['atype']))])
+        system = build_system(d)
+        stored = [(nm, tuple(system.atoms.view[nm].shape[1:])) for nm in system.atoms_prop()]
+        line = f'dumpdefaults {len(stored)} ' + ' '.join(f'{nm} {len(sh)}' + ''.join(f' {x}' for x in sh) for nm, sh in stored)
+        o = ctx.driver.ask(line)
+        if not o.startswith('ok'):
+            raise cm.InfraError(f'model driver: {o} for {line}')
+        model = [(w.split(':')[0], tuple(int(x) for x in w.split(':')[1].split(',') if x)) for w in o.split()[1:]]
+        try:
+            text, pinfo = system.dump('atom_dump', return_prop_info=True)
+            real = [(q['prop_name'], tuple(q['shape'])) for q in pinfo]
+            names = [l for l in text.split('\n') if l.startswith('ITEM: ATOMS')][0].split()[2:]
+            ncols = sum(int(math.prod(sh)) for _n, sh in real)
+            if len(names) != ncols:
+                real = f'{ncols} components in prop_info, {len(names)} names in the ITEM: ATOMS line'
+        except Exception as e:  # noqa
+            real = f'{type(e).__name__}: {e}'
+        ctx.stats.case('dumpdefaults', line, sample={'stored': [nm for nm, _ in stored]})
+        if real != model:
+            report('dump:defaults', f'atom_dump dump without prop_name of a system holding {stored}: atomman uses {real}, '
+                                    f'expected {model}', {'op': 'dump', 'case': case_replay(
+                                        {'kind': 'dump', 'd': d, 'units': 'metal', 'ff': 'f5', 'prop_names': None, 'timestep': 0})})
 
 
 def route_cases(ctx, report, use_model=True, d=None, only=None):
